@@ -79,7 +79,7 @@ def get_sampler(
         ), "rate is required for Exponential/Poisson distribution"
         return Poisson(rate=kwargs[val_name + "_rate"])
     elif distribution == "center":
-        return Uniform(low=(high - low) / 2, high=(high - low) / 2)
+        return Uniform(low=(high + low) / 2, high=(high + low) / 2)
     elif distribution == "corner":
         return Uniform(
             low=low, high=low
